@@ -5,7 +5,7 @@ CONSTANTS
   AmpsL <- Amps2
   Pin = 2
   Mutant = "none"
-  ExemptKnown = FALSE
+  PreFix = TRUE
   Emit = FALSE
 INVARIANT RdmGivesDense
 CHECK_DEADLOCK FALSE
